@@ -307,6 +307,8 @@ pub fn run_filter(c: &FilCase) -> CaseReport {
     let mut pass2_node: HashMap<u8, u64> = HashMap::new();
     let mut filter_imposed_ban = false;
     let mut permit_overrode_ban = false;
+    // the IPs somebody had a reason to ban: the application did, or the IP went over its own quota
+    let mut ip_ban_earned: std::collections::HashSet<u8> = std::collections::HashSet::new();
 
     for ev in &c.events {
         match *ev {
@@ -317,6 +319,8 @@ pub fn run_filter(c: &FilCase) -> CaseReport {
             FEv::BanIp { ip, on } => {
                 let mut l = PERMIT_BAN_LIST.write();
                 if on { l.ban_ips.insert(ip_of(ip), None); } else { l.ban_ips.remove(&ip_of(ip)); }
+                // (ip_of maps the selector modulo 3, like the arrivals)
+                if on { ip_ban_earned.insert(ip % 3); } else { ip_ban_earned.remove(&(ip % 3)); }
             }
             FEv::PermitNode { node, on } => {
                 let mut l = PERMIT_BAN_LIST.write();
@@ -354,6 +358,16 @@ pub fn run_filter(c: &FilCase) -> CaseReport {
                 if ip_permitted && ip_banned {
                     permit_overrode_ban = true;
                 }
+                // B4 (lower bound), the other way to refuse conforming traffic: a ban on an IP that
+                // never went over its quota and that the application never banned (without the
+                // per-IP escalation features nothing else bans an IP)
+                if !c.per_ip_features && ip_banned && !ip_permitted && !p1 && !ip_ban_earned.contains(&ip) {
+                    rep.fail(
+                        "filter/B4-conforming-datagram-refused-ip-stage/ip-banned-without-exceeding-its-quota",
+                        format!("datagram from {} refused: the IP is in the ban list although it saw {} arrivals (ip burst {ipb}) and the application never banned it", ip_of(ip), arrivals_ip.get(&ip).copied().unwrap_or(0)),
+                    );
+                    return rep;
+                }
                 if !ip_permitted && !ip_banned {
                     let ai = arrivals_ip.entry(ip).or_insert(0);
                     let before_ip = *ai;
@@ -385,6 +399,7 @@ pub fn run_filter(c: &FilCase) -> CaseReport {
                     }
                     // B5: the arrival that exceeds the per-IP burst leaves the IP banned
                     if before_ip >= ipb {
+                        ip_ban_earned.insert(ip);
                         if p1 {
                             rep.fail("filter/B4-ip-burst-exceeded", format!("datagram #{} from {} passed, burst {ipb}", before_ip + 1, ip_of(ip)));
                             return rep;
